@@ -77,6 +77,7 @@ type SchedDesc struct {
 	PCTDepth  int            `json:"pct_depth,omitempty"`
 	PCTPoints []uint64       `json:"pct_points,omitempty"`
 	Explicit  []simrt.Switch `json:"explicit,omitempty"`
+	Sweep     bool           `json:"sweep,omitempty"` // C16: afterwards, enumerate every single pre-emption at a hot yield of each task
 }
 
 type RunDesc struct {
